@@ -107,6 +107,28 @@ func c19Gate(c *core.Ctx) {
 			c.Ob("C19.gate", fname(wait)+"·Wait in `for bLock` loop", c.P.Pos(wait.Pos()), false, "no (*sync.Cond).Wait found")
 		}
 	}
+	// (2b) SecureChannel.open releases the receive gate whichever way it ends: the dispatcher locks rcvLocker when it
+	// hands over an OPN response and parks until open() is done; if open's exchange ends by timeout, cancellation or
+	// disconnect the handler never runs, so the release must be deferred in open itself
+	if open := fn(c, "uasc", "SecureChannel", "open"); open != nil {
+		rcv := field(c, "uasc", "SecureChannel", "rcvLocker")
+		unlockO := obj(c, "uasc", "conditionLocker", "unlock")
+		var d *ssa.Defer
+		for _, call := range ssax.Calls(open) {
+			if df, ok := call.(*ssa.Defer); ok && ssax.Callee(df) == unlockO && rcv != nil && recvFromField(df, rcv) {
+				d = df
+			}
+		}
+		ok := d != nil
+		if ok {
+			for _, r := range ssax.Returns(open) {
+				if r.Block() != open.Recover && !ssax.Dominates(d, r) {
+					ok = false
+				}
+			}
+		}
+		c.Ob("C19.gate", fname(open)+"·rcvLocker.unlock deferred on every path", c.P.Pos(open.Pos()), ok, "open() itself defers the release of the receive gate before any return: "+boolStr(ok)+" (released only from the response handler, a timed-out exchange leaves the dispatcher parked for ever)")
+	}
 	// (3) no Signal in the library
 	nSig := 0
 	for _, f := range libFns(c) {
